@@ -6,4 +6,6 @@ Extraction "../ocaml/gen/c18_model.ml"
   normalize_win_path quote unquote py_urlparse urlparse urlunparse from_fs_path to_fs_path
   uri_scheme text_document_path approx_uri utf8_dec_replace pct_bytes
   abs_path empty_authority guard norm norm_host norm_path spec_uri spec_roundtrip
-  rfc3986_split pct_decode plain_uri scheme_is_file.
+  rfc3986_split pct_decode plain_uri scheme_is_file
+  from_fs_path_gen to_fs_path_gen uri_with_gen uri_with
+  win_slashed win_norm win_guard spec_roundtrip_win spec_uri_with with_guard path_has_authority opt_scalar spec_scheme.
